@@ -27,6 +27,7 @@ type Walk struct {
 	ByID     map[atree.SlabID]*SlabRec
 	RefCount map[atree.SlabID]int
 	Broken   []string // references that do not resolve
+	Inlined  map[atree.ValueID]atree.Slab // inlined child slabs by value id
 	Text     string   // canonical structure text (slab IDs renamed by first visit)
 	rename   map[atree.SlabID]int
 }
@@ -61,6 +62,75 @@ type walker struct {
 	w   *World
 	res *Walk
 	sb  strings.Builder
+
+	seed     uint64            // seed of the map tree being rendered
+	haveSeed bool
+	univ     []MV              // keys operations may use on the map being rendered
+	dnames   map[uint64]map[uint64]string // per seed: level-0 digest -> universe key name(s)
+}
+
+// digest renders a level-0 digest canonically: as the universe key(s) hashing to it under the
+// current map's seed (raw value if none does).  Together with the per-map order line this makes
+// the state key independent of the seed's numeric value but not of anything a future operation
+// can observe (the relative order of all universe keys under this seed).
+func (k *walker) digest(d uint64) string {
+	if !k.haveSeed {
+		return fmt.Sprintf("%x", d)
+	}
+	m := k.seedNames(k.seed)
+	if n, ok := m[d]; ok {
+		return n
+	}
+	return fmt.Sprintf("%x", d)
+}
+
+func (k *walker) seedNames(seed uint64) map[uint64]string {
+	if k.dnames == nil {
+		k.dnames = map[uint64]map[uint64]string{}
+	}
+	if m, ok := k.dnames[seed]; ok {
+		return m
+	}
+	m := map[uint64]string{}
+	for _, key := range k.univ {
+		d, ok := k.w.level0Digest(key, seed)
+		if !ok {
+			continue
+		}
+		if m[d] != "" {
+			m[d] += "+"
+		}
+		m[d] += keyText(key)
+	}
+	k.dnames[seed] = m
+	return m
+}
+
+// orderLine renders the order of all universe keys under seed.
+func (k *walker) orderLine(seed uint64) string {
+	type kd struct {
+		d uint64
+		n string
+	}
+	var ks []kd
+	for _, key := range k.univ {
+		if d, ok := k.w.level0Digest(key, seed); ok {
+			ks = append(ks, kd{d, keyText(key)})
+		}
+	}
+	sort.SliceStable(ks, func(a, b int) bool { return ks[a].d < ks[b].d })
+	var sb strings.Builder
+	for i, x := range ks {
+		if i > 0 {
+			if ks[i-1].d == x.d {
+				sb.WriteString("=")
+			} else {
+				sb.WriteString("<")
+			}
+		}
+		sb.WriteString(x.n)
+	}
+	return sb.String()
 }
 
 func (k *walker) name(id atree.SlabID) string {
@@ -97,6 +167,7 @@ func (k *walker) storable(s atree.Storable, parent atree.SlabID, root int) {
 		k.slab(id, parent, root)
 	case atree.Slab:
 		k.sb.WriteString("I")
+		k.res.Inlined[slabIDToValueID(s.SlabID())] = s
 		k.slabBody(s, parent, root)
 	default:
 		fmt.Fprintf(&k.sb, "?%T", s)
@@ -129,6 +200,13 @@ func (k *walker) slab(id atree.SlabID, parent atree.SlabID, root int) {
 
 func (k *walker) slabBody(s atree.Slab, self atree.SlabID, root int) {
 	info := atree.VerifDescribeSlab(s)
+	if info.HasExtraData && (info.Kind == "mapData" || info.Kind == "mapMeta") {
+		oldSeed, oldHave, oldUniv := k.seed, k.haveSeed, k.univ
+		k.seed, k.haveSeed = info.MapSeed, true
+		k.univ = k.w.universeOfMap(slabIDToValueID(info.SlabID))
+		defer func() { k.seed, k.haveSeed, k.univ = oldSeed, oldHave, oldUniv }()
+		fmt.Fprintf(&k.sb, "ord(%s)", k.orderLine(info.MapSeed))
+	}
 	switch info.Kind {
 	case "arrayData":
 		fmt.Fprintf(&k.sb, "{ad sz%d n%d", info.HeaderSize, info.HeaderCount)
@@ -161,7 +239,7 @@ func (k *walker) slabBody(s atree.Slab, self atree.SlabID, root int) {
 		}
 		k.sb.WriteString("]}")
 	case "mapData":
-		fmt.Fprintf(&k.sb, "{md sz%d fk%x", info.HeaderSize, info.FirstKey)
+		fmt.Fprintf(&k.sb, "{md sz%d fk%s", info.HeaderSize, k.digest(info.FirstKey))
 		if info.HasExtraData {
 			fmt.Fprintf(&k.sb, " x%s c%d", tiText(info.TypeInfo), info.MapCount)
 		}
@@ -178,7 +256,7 @@ func (k *walker) slabBody(s atree.Slab, self atree.SlabID, root int) {
 		k.elems(info.MapElems, info.MapLevel, info.MapListKind, info.MapElemsSize, self, root)
 		k.sb.WriteString("}")
 	case "mapMeta":
-		fmt.Fprintf(&k.sb, "{mm sz%d fk%x", info.HeaderSize, info.FirstKey)
+		fmt.Fprintf(&k.sb, "{mm sz%d fk%s", info.HeaderSize, k.digest(info.FirstKey))
 		if info.HasExtraData {
 			fmt.Fprintf(&k.sb, " x%s c%d", tiText(info.TypeInfo), info.MapCount)
 		}
@@ -187,7 +265,7 @@ func (k *walker) slabBody(s atree.Slab, self atree.SlabID, root int) {
 			if i > 0 {
 				k.sb.WriteString(" ")
 			}
-			fmt.Fprintf(&k.sb, "(sz%d fk%x)", ch.Size, ch.FirstKey)
+			fmt.Fprintf(&k.sb, "(sz%d fk%s)", ch.Size, k.digest(ch.FirstKey))
 			k.slab(ch.SlabID, self, root)
 		}
 		k.sb.WriteString("]}")
@@ -209,7 +287,11 @@ func (k *walker) elems(es []atree.VerifElem, level uint, list bool, size uint32,
 	for _, e := range es {
 		k.sb.WriteString(" ")
 		if e.HasHKey {
-			fmt.Fprintf(&k.sb, "%x:", e.Digest)
+			if level == 0 {
+				fmt.Fprintf(&k.sb, "%s:", k.digest(e.Digest))
+			} else {
+				fmt.Fprintf(&k.sb, "%x:", e.Digest)
+			}
 		}
 		switch e.Kind {
 		case "single":
@@ -250,7 +332,7 @@ func (k *walker) keyStorable(s atree.Storable, self atree.SlabID, root int) {
 // DoWalk traverses all slabs reachable from the live roots, independently of the library's own
 // traversal code (it only uses the per-slab projection hook and the register decoder).
 func (w *World) DoWalk() *Walk {
-	res := &Walk{ByID: map[atree.SlabID]*SlabRec{}, RefCount: map[atree.SlabID]int{}, rename: map[atree.SlabID]int{}}
+	res := &Walk{Inlined: map[atree.ValueID]atree.Slab{}, ByID: map[atree.SlabID]*SlabRec{}, RefCount: map[atree.SlabID]int{}, rename: map[atree.SlabID]int{}}
 	k := &walker{w: w, res: res}
 	for _, c := range w.LiveRoots() {
 		fmt.Fprintf(&k.sb, "root c%d: ", c.Serial)
@@ -313,22 +395,57 @@ func (w *World) AllStorageIDs() []atree.SlabID {
 	return ids
 }
 
+// canonOrder lists live containers in canonical order (depth-first from the live roots in
+// registry order) and names them by visit number, so that serial numbers of dead containers do
+// not leak into the state key.
+func (w *World) canonOrder() ([]*Cont, map[*Cont]int) {
+	var order []*Cont
+	names := map[*Cont]int{}
+	var visit func(c *Cont)
+	visit = func(c *Cont) {
+		names[c] = len(order)
+		order = append(order, c)
+		vals := c.Elems
+		if c.IsMap {
+			vals = c.Vals
+		}
+		for _, v := range vals {
+			if u, _ := Unwrap(v); u != nil {
+				if ch, ok := u.(*Cont); ok {
+					visit(ch)
+				}
+			}
+		}
+	}
+	for _, c := range w.LiveRoots() {
+		visit(c)
+	}
+	return order, names
+}
+
+func classOfCanon(v MV, names map[*Cont]int) string {
+	switch v := v.(type) {
+	case Some:
+		return "S(" + classOfCanon(v.In, names) + ")"
+	case *Cont:
+		return fmt.Sprintf("c%d", names[v])
+	}
+	return ClassOf(v)
+}
+
 // modelText renders the abstract model state (classes, not contents) and the hidden handle state.
 func (w *World) modelText(wk *Walk) string {
 	var sb strings.Builder
+	order, names := w.canonOrder()
 	vidOwner := map[atree.ValueID]int{}
-	for _, c := range w.Conts {
-		vidOwner[c.VID] = c.Serial
+	for _, c := range order {
+		vidOwner[c.VID] = names[c]
 	}
-	for _, c := range w.Conts {
-		fmt.Fprintf(&sb, "c%d ", c.Serial)
-		switch {
-		case c.Dead:
-			sb.WriteString("dead\n")
-			continue
-		case c.Parent != nil:
-			fmt.Fprintf(&sb, "in c%d w%d ", c.Parent.Serial, c.Wrap)
-		default:
+	for _, c := range order {
+		fmt.Fprintf(&sb, "c%d ", names[c])
+		if c.Parent != nil {
+			fmt.Fprintf(&sb, "in c%d w%d ", names[c.Parent], c.Wrap)
+		} else {
 			sb.WriteString("root ")
 		}
 		fmt.Fprintf(&sb, "t%d/%v ", c.TypeID, c.Comp)
@@ -337,26 +454,26 @@ func (w *World) modelText(wk *Walk) string {
 			for i := range idx {
 				idx[i] = i
 			}
-			sort.Slice(idx, func(a, b int) bool { return MVString(c.Keys[idx[a]]) < MVString(c.Keys[idx[b]]) })
+			sort.Slice(idx, func(a, b int) bool { return keyText(c.Keys[idx[a]]) < keyText(c.Keys[idx[b]]) })
 			sb.WriteString("{")
 			for _, i := range idx {
-				fmt.Fprintf(&sb, "%s:%s ", keyText(c.Keys[i]), ClassOf(c.Vals[i]))
+				fmt.Fprintf(&sb, "%s:%s ", keyText(c.Keys[i]), classOfCanon(c.Vals[i], names))
 			}
 			sb.WriteString("}")
 			if c.Map != nil {
-				_, hp := atree.VerifMapState(c.Map)
+				root, hp := atree.VerifMapState(c.Map)
 				fmt.Fprintf(&sb, " h pu=%v", hp)
+				sb.WriteString(w.handleRootText(c, root, wk))
 			}
 		} else {
 			sb.WriteString("[")
 			for _, e := range c.Elems {
-				sb.WriteString(ClassOf(e) + " ")
+				sb.WriteString(classOfCanon(e, names) + " ")
 			}
 			sb.WriteString("]")
 			if c.Arr != nil {
-				_, hp, tracked := atree.VerifArrayState(c.Arr)
+				root, hp, tracked := atree.VerifArrayState(c.Arr)
 				fmt.Fprintf(&sb, " h pu=%v tr[", hp)
-				// order-insensitive rendering: sort by (index, owner serial)
 				var ts []string
 				for _, t := range tracked {
 					o, ok := vidOwner[t.ValueID]
@@ -368,11 +485,33 @@ func (w *World) modelText(wk *Walk) string {
 				sort.Strings(ts)
 				sb.WriteString(strings.Join(ts, " "))
 				sb.WriteString("]")
+				sb.WriteString(w.handleRootText(c, root, wk))
 			}
 		}
 		sb.WriteString("\n")
 	}
 	return sb.String()
+}
+
+// handleRootText records whether the slab object a child handle operates on is the very object
+// its parent (or the storage) holds for it; a divergence is hidden state that changes futures.
+func (w *World) handleRootText(c *Cont, root atree.Slab, wk *Walk) string {
+	if c.Parent == nil {
+		return "" // roots are rendered through their handle by the walk itself
+	}
+	if in, ok := wk.Inlined[c.VID]; ok {
+		if in == root {
+			return " =inl"
+		}
+		return " !inl:" + renderSlab(atree.VerifDescribeSlab(root))
+	}
+	if r := wk.ByID[c.SID]; r != nil {
+		if r.Slab == root {
+			return " =ext"
+		}
+		return " !ext:" + renderSlab(atree.VerifDescribeSlab(root))
+	}
+	return " ?"
 }
 
 func keyText(k MV) string {
@@ -438,4 +577,12 @@ func (w *World) StateText() (string, *Walk) {
 func HashText(s string) string {
 	h := sha256.Sum256([]byte(s))
 	return hex.EncodeToString(h[:12])
+}
+
+func slabIDToValueID(id atree.SlabID) atree.ValueID {
+	var v atree.ValueID
+	var b [16]byte
+	id.ToRawBytes(b[:])
+	copy(v[:], b[:])
+	return v
 }
